@@ -64,18 +64,24 @@ fn class_of(instant: i128, exp: Option<i128>, n: u32, op: usize) -> String {
 
 /// compare a real result with the expected instant/offset (None = must panic)
 pub fn judge(op: &str, class: &str, case: Value, got: &Out<DateTime>, exp: Option<i128>, off: i32, acc: &mut Acc) {
+    judge_lazy(|| op.to_string(), || class.to_string(), || case.clone(), got, exp, off, acc)
+}
+
+/// like `judge`, but the operation name, class id and case description are only built on a violation
+/// (the complete count-axis sweeps execute 1.5e11 cases)
+pub fn judge_lazy(op: impl FnOnce() -> String, class: impl FnOnce() -> String, case: impl FnOnce() -> Value, got: &Out<DateTime>, exp: Option<i128>, off: i32, acc: &mut Acc) {
     match (exp, got) {
         (Some(e), Out::Val(v)) => {
             let gi = dt_instant(v);
             let go = off_secs(v.get_offset());
             if gi != Some(e) || go != off {
-                acc.violation(op, &format!("wrong-instant-{}", class), case, format!("instant {} offset {}", e, off), format!("instant {:?} offset {} ({:?})", gi, go, v));
+                acc.violation(&op(), &format!("wrong-instant-{}", class()), case(), format!("instant {} offset {}", e, off), format!("instant {:?} offset {} ({:?})", gi, go, v));
             }
             acc.branch("moved");
         }
-        (Some(e), other) => acc.violation(op, &format!("panic-in-range-{}", class), case, format!("instant {}", e), other.show()),
+        (Some(e), other) => acc.violation(&op(), &format!("panic-in-range-{}", class()), case(), format!("instant {}", e), other.show()),
         (None, Out::Panic(_)) => acc.branch("expected-panic"),
-        (None, other) => acc.violation(op, &format!("no-panic-out-of-range-{}", class), case, "panic (result not representable)".into(), other.show()),
+        (None, other) => acc.violation(&op(), &format!("no-panic-out-of-range-{}", class()), case(), "panic (result not representable)".into(), other.show()),
     }
 }
 
@@ -87,6 +93,11 @@ fn case_unit(day: i64, nod: u64, off: i32, op: usize, n: u32, acc: &mut Acc) {
             return;
         }
     };
+    case_unit_on(&dt, day, nod, off, op, n, acc)
+}
+
+/// the same on an already constructed receiver (count-axis sweeps build it once per chunk)
+fn case_unit_on(dt: &DateTime, day: i64, nod: u64, off: i32, op: usize, n: u32, acc: &mut Acc) {
     acc.transitions += 1;
     acc.states += 1;
     let instant = ins::join(day, nod);
@@ -94,9 +105,8 @@ fn case_unit(day: i64, nod: u64, off: i32, op: usize, n: u32, acc: &mut Acc) {
     if n != 0 {
         acc.nontrivial += 1;
     }
-    let got = call(|| apply_unit(&dt, op, n));
-    let class = class_of(instant, exp, n, op);
-    judge(&op_name(op), &class, json!({"kind": "unit", "day": day, "nod": nod.to_string(), "off": off, "op": op, "n": n}), &got, exp, off, acc);
+    let got = call(|| apply_unit(dt, op, n));
+    judge_lazy(|| op_name(op), || class_of(instant, exp, n, op), || json!({"kind": "unit", "day": day, "nod": nod.to_string(), "off": off, "op": op, "n": n}), &got, exp, off, acc);
     if let Some(e) = exp {
         if (e < 0) != (instant < 0) {
             acc.branch("crosses-era");
@@ -232,11 +242,14 @@ pub fn run(ctx: &Ctx) -> i32 {
     // count axis from base instants
     let bases: [(i64, u64); 3] = [(0, 0), (cal::days_from_civil(2024, 2, 29), 43_200_000_000_001), (-366, 86_399_999_999_999)];
     if ctx.thorough && checked {
-        rep.sweep("unit-ops:all-2^32-counts x 12 sub-day ops x 3 bases", (1u64 << 32) * 36, "complete count axis for every sub-day unit", |i, acc| {
-            let n = (i / 36) as u32;
-            let k = i % 36;
-            let (b, op) = (bases[(k / 12) as usize], 2 + (k % 12) as usize);
-            case_unit(b.0, b.1, 0, op, n, acc);
+        rep.sweep_chunked("unit-ops:all-2^32-counts x 12 sub-day ops x 3 bases", (1u64 << 32) * 36, "complete count axis for every sub-day unit", |lo, hi, acc| {
+            let recv: Vec<DateTime> = bases.iter().map(|b| dt_from_off(b.0, b.1, 0).expect("base instant")).collect();
+            for i in lo..hi {
+                let n = (i / 36) as u32;
+                let k = i % 36;
+                let (bi, op) = ((k / 12) as usize, 2 + (k % 12) as usize);
+                case_unit_on(&recv[bi], bases[bi].0, bases[bi].1, 0, op, n, acc);
+            }
         });
         rep.sweep("unit-ops:all-2^32-counts add_days from MIN / sub_days from MAX", (1u64 << 32) * 2, "every count is in range there", |i, acc| {
             let n = (i / 2) as u32;
